@@ -85,6 +85,7 @@ func (this *Hnsw) Insert(id uuid.UUID, value math.Vector, metadata Metadata, ver
 		if err := this.storeVertex(vertex); err != nil {
 			return err
 		}
+		verifYield("insert.first.stored", id)
 		if atomic.CompareAndSwapPointer(&this.entrypoint, nil, unsafe.Pointer(vertex)) {
 			return nil
 		} else {
@@ -96,6 +97,7 @@ func (this *Hnsw) Insert(id uuid.UUID, value math.Vector, metadata Metadata, ver
 			return err
 		}
 	}
+	verifYield("insert.stored", id)
 
 	entrypoint := (*hnswVertex)(atomic.LoadPointer(&this.entrypoint))
 	minDistance := this.space.Distance(vertex.vector, entrypoint.vector)
@@ -132,6 +134,7 @@ func (this *Hnsw) Insert(id uuid.UUID, value math.Vector, metadata Metadata, ver
 		}
 	}
 
+	verifYield("insert.linked", id)
 	entrypoint = (*hnswVertex)(atomic.LoadPointer(&this.entrypoint))
 	if entrypoint != nil && vertex.level > entrypoint.level {
 		atomic.CompareAndSwapPointer(&this.entrypoint, this.entrypoint, unsafe.Pointer(vertex))
@@ -168,6 +171,7 @@ func (this *Hnsw) Remove(id uuid.UUID) error {
 		return err
 	}
 
+	verifYield("remove.unstored", id)
 	currEntrypoint := atomic.LoadPointer(&this.entrypoint)
 	if (*hnswVertex)(currEntrypoint) == vertex {
 		minDistance := math.MaxFloat
@@ -195,6 +199,7 @@ func (this *Hnsw) Remove(id uuid.UUID) error {
 			// stored vertex so that the remaining items stay searchable.
 			closestNeighbor = this.fallbackEntrypoint()
 		}
+		verifYield("remove.handover", id)
 		atomic.CompareAndSwapPointer(&this.entrypoint, currEntrypoint, unsafe.Pointer(closestNeighbor))
 	}
 
